@@ -7,7 +7,7 @@ command), and real HfProtocol.initiate_slc against the real AgProtocol for featu
 """
 import re
 
-from vf.e1 import harness, untraced, concrete as C
+from vf.e1 import Stalled, cpu_deadline, harness, untraced, concrete as C
 from vf import detloop
 
 from bumble import rfcomm, hfp, l2cap
@@ -347,7 +347,10 @@ def ag_garbage_then_command(x0: int, x1: int, x2: int, n: int) -> bool:
     with detloop.running() as loop:
         ag, dlc = _ag()
         try:
-            ag._read_at(bytes([x0, x1, x2][:n]) + b'\r')
+            with cpu_deadline(20.0):
+                ag._read_at(bytes([x0, x1, x2][:n]) + b'\r')
+        except Stalled:
+            return False          # a busy loop in the reader
         except Exception:
             pass
         n0 = len(dlc.out)
